@@ -677,11 +677,12 @@ where
         let mut rng = state.random_mut();
 
         for solution in populations.current_mut().as_solutions_mut() {
-            let [start, end]: [_; 2] = (0..solution.len())
-                .choose_multiple(&mut *state.random_mut(), 2)
+            let [i, j]: [_; 2] = (0..solution.len())
+                .choose_multiple(&mut *rng, 2)
                 .try_into()
                 .unwrap();
-            let index = rng.gen_range(0..start);
+            let (start, end) = (i.min(j), i.max(j));
+            let index = rng.gen_range(0..=solution.len() - (end - start));
             f::translocate_slice(solution, start..end, index);
         }
         Ok(())
